@@ -377,7 +377,7 @@ func init() {
 								c.count("size:tiny")
 							case pick <= 6 && !redis:
 								// land the signed value within a few bytes of a split threshold
-								target := []int{t1, t1, t2, t2, t3, t1}[pick-1] + r.intn(17) - 8
+								target := []int{t1, max, t2, t2, t3, (t1 + max) / 2}[pick-1] + r.intn(17) - 8 // incl. the VALUE alone reaching the budget (whole cookie > 4096 with a long name if the store measured the value only)
 								ss = shCopySession(probe)
 								// fresh contents of identical byte length (keeps the msgpack size identical)
 								u := []byte(ss.User)
@@ -443,6 +443,7 @@ func init() {
 							if len(line) > 4096 {
 								bad += fmt.Sprintf("length %d > 4096; ", len(line))
 								c.violation("C10", "a session cookie exceeds 4096 bytes", map[string]interface{}{"store": storeKind, "len": len(line), "cookie_name_len": len(pc.Name)})
+								c.violation("C18", "a session cookie serialises to more than 4096 bytes", map[string]interface{}{"store": storeKind, "len": len(line), "cookie_name_len": len(pc.Name)})
 							}
 							if bad != "" {
 								c.violation("C18", "session-store Set-Cookie lacks configured attributes: "+bad,
